@@ -200,7 +200,99 @@ def window_requirements(jroot, root_real, made, n):
     return need
 
 
+# ---------------------------------------------------------------- enumerated special shapes
+
+def enumerate_cases(tier):
+    cases = []
+    for mode in ("", "bfs", "dfs"):
+        for target in ("rel", "abs"):
+            cases.append({"special": "archive-behind-link", "mode": mode, "target": target})
+        # each link's target goes through ANOTHER link (`v` -> .): the textual path of level n holds n links; the kernel
+        # resolves at most 40 of them in one lookup
+        for n in (12, 39, 45, 60):
+            cases.append({"special": "long-link-chain", "mode": mode, "n": n})
+        cases.append({"special": "bind-mount", "mode": mode})
+    return cases
+
+
+def _zip(path, names):
+    import zipfile
+    with zipfile.ZipFile(path, "w") as z:
+        for n in names:
+            z.writestr(n, "x")
+
+
+def check_special(case):
+    out = Outcome()
+    cdir = runner.new_case_dir()
+    base = os.path.join(cdir, "w")
+    os.makedirs(base + "/root")
+    os.makedirs(base + "/out")
+    opts = (" " + case["mode"]) if case["mode"] else ""
+    kind = case["special"]
+    try:
+        wrap = None
+        if kind == "archive-behind-link":
+            # without `symlinks` no row comes from behind a link - not from an archive behind it either
+            _zip(base + "/out/a.zip", ["m1.txt", "d/m2.txt"])
+            _zip(base + "/root/in.zip", ["own.txt"])
+            os.symlink("../out/a.zip" if case["target"] == "rel" else base + "/out/a.zip", base + "/root/l.zip")
+            q = "path from root archives%s into list" % opts
+            want = collections.Counter(["root/l.zip", "root/in.zip", "[root/in.zip] own.txt"])
+        elif kind == "long-link-chain":
+            n = case["n"]
+            os.symlink(".", base + "/out/v")
+            os.symlink("../out/v/d1", base + "/root/start")
+            for i in range(1, n + 1):
+                os.mkdir(base + "/out/d%d" % i)
+                open(base + "/out/d%d/f%d" % (i, i), "w").close()
+                if i < n:
+                    os.symlink("../v/d%d" % (i + 1), base + "/out/d%d/n" % i)
+            q = "name from root symlinks%s where name like 'f%%' into list" % opts
+            want = collections.Counter("f%d" % i for i in range(1, n + 1))
+        else:
+            # one real directory visible under two paths (a bind mount), reached physically and through links
+            os.makedirs(base + "/root/d")
+            os.makedirs(base + "/root/bm")
+            os.makedirs(base + "/root/z")
+            open(base + "/root/d/f", "w").close()
+            os.symlink("../d", base + "/root/z/l1")
+            os.symlink("../bm", base + "/root/z/l2")
+            wrap = ["unshare", "-m", "sh", "-c", 'set -e\nmount --bind "$1/root/d" "$1/root/bm"\ncd "$1"; shift; exec "$@"', "sh", base]
+            q = "name from root symlinks%s where name = f into list" % opts
+            want = collections.Counter(["f"])
+        res = runner.run([q], cwd=base, wrap=wrap)
+        out.evals += 1
+        if res.wall_timeout:
+            out.inconclusive = True
+            return out
+        if wrap and (b"unshare" in res.err or b"mount:" in res.err):
+            out.classes = ["mounts-unavailable"]
+            return out
+        if res.cpu_timeout:
+            out.add("C18/does-not-terminate", query=q, special=kind)
+            return out
+        if res.sig is not None or res.status != 0 or res.err:
+            out.add("C18/special/%s/status-not-clean" % kind, query=q, status=res.status, signal=res.sig, stderr=res.err[:300])
+            return out
+        got = collections.Counter(r[0] for r in runner.rows(res.out, 1))
+        if got != want:
+            lost, extra = sorted((want - got).elements()), sorted((got - want).elements())
+            what = "rows-from-behind-a-link" if kind == "archive-behind-link" and extra else \
+                "listed-twice" if any(c > 1 for c in got.values()) else "not-listed"
+            out.add("C18/special/%s/%s" % (kind, what), query=q, lost=lost[:6], extra=extra[:6], n=case.get("n"))
+        out.nontrivial = True
+        out.nt_keys = ["%s|%s|%s|%s" % (kind, case["mode"], case.get("n"), case.get("target"))]
+        out.classes = ["special=" + kind, "mode=" + (case["mode"] or "default")]
+        out.sample = {"query": q, "rows": sum(got.values())}
+    finally:
+        runner.rmtree(cdir)
+    return out
+
+
 def check(case):
+    if "special" in case:
+        return check_special(case)
     out = Outcome()
     j = jail()
     _jail["n"] += 1
